@@ -500,9 +500,8 @@ fn entry_lists(lists: &Value, scale: f64) -> [Named; 2] {
 
 /// C14: replay entry lists into both import paths
 pub fn replay_import(args: &Args) {
-    let cases = util::read_ndjson(args.get("exp"));
     let mut out = Out::create(args.get("out"));
-    for (n, row) in cases.iter().enumerate() {
+    for (n, row) in util::stream_ndjson(args.get("exp")).enumerate() {
         let case = &row["exp"];
         let scale_name = case["scale"].as_str().unwrap();
         let scale = match scale_name {
